@@ -490,3 +490,55 @@ Definition adm_inv (z : sstate) : Prop :=
   end.
 
 Definition sinit (m : kv) : sstate := mkS (init_state m []) None.
+
+(* ---- the message channel -----------------------------------------------------------------------
+   A retry handler hands the re-emitted batches to the relayer's message channel with a plain
+   (blocking) send; the channel is unbuffered in the relayer (capacity [cap] here) and its one reader is
+   busy routing most of the time.  The scheduler decides when the sender gets to its send and when the
+   reader comes to its receive: [SenderStep] = the sender tries to hand over its next batch (directly
+   to a reader that waits in its receive, else into a free slot, else it stays parked at the send -
+   [blocking = false] is a send that gives up instead: select/default, a timeout that passed, "channel
+   full"), [ReaderStep] = the reader comes (back) to its receive: it takes the oldest queued batch, or
+   waits. *)
+Inductive cev := SenderStep | ReaderStep.
+
+Record chan_st := mkChan {
+  c_pending : list (list deposit);   (* batches the handler still has to send *)
+  c_queue : list (list deposit);     (* in the channel's buffer *)
+  c_got : list (list deposit);       (* received by the reader *)
+  c_waiting : bool                   (* the reader sits in its receive *)
+}.
+
+Definition chan_init (bs : list (list deposit)) : chan_st := mkChan bs [] [] false.
+
+Definition chan_step (blocking : bool) (cap : nat) (z : chan_st) (e : cev) : chan_st :=
+  match e with
+  | SenderStep =>
+      match c_pending z with
+      | [] => z
+      | b :: p =>
+          if c_waiting z then mkChan p (c_queue z) (c_got z ++ [b]) false
+          else if Nat.ltb (length (c_queue z)) cap then mkChan p (c_queue z ++ [b]) (c_got z) false
+          else if blocking then z
+          else mkChan p (c_queue z) (c_got z) false
+      end
+  | ReaderStep =>
+      match c_queue z with
+      | b :: q => mkChan (c_pending z) q (c_got z ++ [b]) false
+      | [] => mkChan (c_pending z) [] (c_got z) true
+      end
+  end.
+
+Definition chan_run (blocking : bool) (cap : nat) (sched : list cev) (z : chan_st) : chan_st :=
+  fold_left (chan_step blocking cap) sched z.
+
+(* everything the reader has, will find in the buffer, or will still be offered - in sending order *)
+Definition chan_all (z : chan_st) : list (list deposit) := c_got z ++ c_queue z ++ c_pending z.
+
+(* the reader of the "late" cases: it comes to its receive only after the sender got to its send, once
+   per batch *)
+Fixpoint late_sched (n : nat) : list cev :=
+  match n with
+  | O => []
+  | S n' => SenderStep :: ReaderStep :: SenderStep :: late_sched n'
+  end.
